@@ -413,3 +413,151 @@ Proof.
     split; [reflexivity|]. split; [reflexivity|]. split; [congruence|]. split; [reflexivity | exact Hs].
 Qed.
 End Split.
+(* ---- single epoch = the independently written constant model ---- *)
+Lemma clampi_1 i : clampi i 1 = O.
+Proof. unfold clampi. destruct i; reflexivity. Qed.
+
+Section Single.
+Variables (lam mu psi : R) (rho T : Q).
+Hypotheses (Hl : 0 < lam) (Hm : 0 < mu) (Hp : 0 < psi) (Hr : 0 <= Q2R rho <= 1) (HT : 0 <= Q2R T).
+Let e := mkEp lam mu psi rho 0%Q T.
+Let s := solve_epoch NumR e (c1 NumR).
+
+Lemma e_wf : wf_ep e.
+Proof. unfold wf_ep, e; cbn [elam emu epsi erho et0 et1]. rewrite Q2R_0. repeat split; auto; lra. Qed.
+
+Lemma s_A : sA s = bd_A NumR lam mu psi. Proof. reflexivity. Qed.
+Lemma s_B : sB s = bd_B NumR lam mu psi rho.
+Proof.
+  unfold s, solve_epoch, bd_B, Bof, bd_A, c1, c2. cbn [sB elam emu epsi erho e add sub mul div one ofQ NumR].
+  f_equal. ring.
+Qed.
+
+Lemma s_p : sp s = bd_p NumR lam mu psi rho T.
+Proof.
+  unfold s. rewrite solve_epoch_R. cbn [sp].
+  unfold bd_p. cbv zeta. fold s. rewrite <- s_B. 
+  unfold Pf, Df, c1, c2, bd_A. rewrite Aof_R. cbn [add sub mul div one ofQ NumR nexp].
+  rewrite Q2R_2. unfold s. rewrite solve_epoch_R. cbn [sB].
+  unfold dur. cbn [et0 et1 e]. rewrite Q2R_0, Rminus_0_r. 
+  change (c1 NumR) with 1. change (elam e) with lam. change (emu e) with mu. change (epsi e) with psi. change (eA e) with (sqrt (rad lam mu psi)). unfold Rdiv. ring.
+Qed.
+
+Lemma first_q0 : first_term NumR e s = ln (bd_q0 NumR lam mu psi rho T).
+Proof.
+  unfold first_term. rewrite s_B. cbn [et1 e]. unfold bd_q0. cbv zeta.
+  change (nln NumR) with ln. f_equal.
+  rewrite s_A. set (A := bd_A NumR lam mu psi). set (B := bd_B NumR lam mu psi rho).
+  unfold qform, sqr, c1, c4. cbn [add sub mul div one zero opp ofQ nexp NumR].
+  rewrite Rminus_0_r. replace (- A * Q2R T) with (- (A * Q2R T)) by ring. rewrite exp_Ropp.
+  pose proof (exp_pos (A * Q2R T)) as HE.
+  destruct (epoch_facts e 1 (Q2R T) e_wf ltac:(lra) HT) as (_ & _ & _ & HD & _).
+  assert (HB : eB e 1 = B).
+  { unfold B. rewrite <- s_B. unfold s. rewrite solve_epoch_R. reflexivity. }
+  rewrite HB in HD. assert (HAe : eA e = A) by (unfold A, bd_A; rewrite Aof_R; reflexivity). rewrite HAe in HD. unfold Df in HD.
+  field. split; apply Rgt_not_eq; lra.
+Qed.
+
+Lemma births_eq xs :
+  births_sum NumR [0%Q; T] 1 [(e, s)] xs = bd_births NumR lam mu psi rho T xs.
+Proof.
+  unfold births_sum, bd_births. f_equal. apply map_ext. intros x.
+  unfold birth_term, idx_right. rewrite clampi_1. cbn [lk elam e].
+  unfold log_q, bd_log_q. rewrite s_A, s_B. reflexivity.
+Qed.
+
+Lemma tips_eq serial ys :
+  tips_sum NumR serial [0%Q; T] 1 [e] [(e, s)] None ys = bd_tips NumR serial lam mu psi rho T ys.
+Proof.
+  unfold tips_sum, bd_tips. destruct serial; [|reflexivity]. f_equal. apply map_ext. intros y.
+  unfold tip_term, is_rho_tip. cbn [existsb et1 erho e]. rewrite orb_false_r.
+  destruct (Qeq_bool T y && Qpos_bool rho); [reflexivity|].
+  unfold idx_left. rewrite clampi_1. cbn [lk epsi e].
+  unfold log_q, bd_log_q. rewrite s_A, s_B. reflexivity.
+Qed.
+
+Lemma single_epoch_is_constant_l survival tips ints :
+  log_prob NumR survival None [e] tips ints = bd_log_prob NumR survival lam mu psi rho T tips ints.
+Proof.
+  unfold log_prob, bd_log_prob.
+  cbn [length times_of lastq map back combine fst et0 et1 e].
+  fold e. fold s.
+  rewrite births_eq, tips_eq.
+  cbn [boundary_terms rho_terms removal_part et1 erho e].
+  assert (Hs : surv_term NumR survival e s = bd_surv NumR survival lam mu psi rho T).
+  { unfold surv_term, bd_surv. rewrite first_q0, s_p. reflexivity. }
+  rewrite Hs. unfold bd_rho. cbv zeta. cbn [add zero NumR]. ring.
+Qed.
+End Single.
+
+(* ---- statements in the form used by prop/C09.v ---- *)
+Lemma eA_Aof e : Aof NumR (elam e) (emu e) (epsi e) = eA e.
+Proof. apply Aof_R. Qed.
+Lemma eB_Bof e pn : Bof NumR (elam e) (emu e) (epsi e) (eA e) (Q2R (erho e)) pn = eB e pn.
+Proof. apply Bof_R. Qed.
+
+Lemma C09_p0_master (e : epoch R) (pn tau : R) :
+  wf_ep e -> 0 <= pn <= 1 -> 0 <= tau ->
+  let A := Aof NumR (elam e) (emu e) (epsi e) in
+  let B := Bof NumR (elam e) (emu e) (epsi e) A (Q2R (erho e)) pn in
+  let p := fun t => p0form NumR (elam e) (emu e) (epsi e) A B (exp (A * t)) in
+  is_derive p tau (emu e - (elam e + emu e + epsi e) * p tau + elam e * (p tau * p tau))
+  /\ p 0 = (1 - Q2R (erho e)) * pn /\ 0 <= p tau <= 1.
+Proof. intros. subst A B p. rewrite eA_Aof, eB_Bof. apply p0_master_l; assumption. Qed.
+
+Lemma C09_q_master (e : epoch R) (pn tau : R) :
+  wf_ep e -> 0 <= pn <= 1 -> 0 <= tau ->
+  let A := Aof NumR (elam e) (emu e) (epsi e) in
+  let B := Bof NumR (elam e) (emu e) (epsi e) A (Q2R (erho e)) pn in
+  let p := fun t => p0form NumR (elam e) (emu e) (epsi e) A B (exp (A * t)) in
+  let q := fun t => qform NumR B (exp (A * t)) in
+  is_derive q tau ((- (elam e + emu e + epsi e) + 2 * elam e * p tau) * q tau)
+  /\ q 0 = 1 /\ 0 < q tau.
+Proof. intros. subst A B p q. rewrite eA_Aof, eB_Bof. apply q_master_l; assumption. Qed.
+
+Lemma C09_boundary (e : epoch R) (r : list (epoch R)) :
+  List.Forall wf_ep (e :: r) ->
+  match back NumR (e :: r) with
+  | (s :: _, p) => p_at NumR e s (et1 e) = (1 - Q2R (erho e)) * snd (back NumR r)
+                   /\ sp s = p_at NumR e s (et0 e) /\ p = sp s /\ 0 <= p <= 1
+  | _ => False
+  end.
+Proof.
+  intros H. pose proof (boundary_wiring_l e r H) as Hb. pose proof (back_range _ H) as Hp.
+  revert Hb Hp. cbn [back]. destruct (back NumR r) as [l pn]. cbn [snd].
+  intros (H1 & H2) Hp. repeat split; auto; apply Hp.
+Qed.
+
+Lemma C09_split (l u p : R) (rho t0 t1 t2 : Q) (pre r : list (epoch R)) :
+  let e  := mkEp l u p rho t0 t2 in
+  let e1 := mkEp l u p 0%Q t0 t1 in
+  let e2 := mkEp l u p rho t1 t2 in
+  List.Forall wf_ep (pre ++ e1 :: e2 :: r) ->
+  exists lpre s1 s2 s lr,
+    fst (back NumR (pre ++ e1 :: e2 :: r)) = lpre ++ s1 :: s2 :: lr /\
+    fst (back NumR (pre ++ e :: r)) = lpre ++ s :: lr /\
+    List.length lpre = List.length pre /\
+    snd (back NumR (pre ++ e1 :: e2 :: r)) = snd (back NumR (pre ++ e :: r)) /\
+    sp s1 = sp s /\ sA s1 = sA s /\ sA s2 = sA s /\ sB s2 = sB s /\
+    (forall tau, 0 <= tau ->
+       Pf l u p (sA s1) (sB s1) tau = Pf l u p (sA s) (sB s) (tau + (Q2R t2 - Q2R t1)) /\
+       Qf (sA s1) (sB s1) tau * Qf (sA s) (sB s) (Q2R t2 - Q2R t1)
+         = Qf (sA s) (sB s) (tau + (Q2R t2 - Q2R t1))).
+Proof.
+  intros e e1 e2 H.
+  destruct (back_split l u p rho t0 t1 t2 pre r H) as (lpre & s1 & s2 & s & lr & E1 & E2 & E3 & E4 & E5).
+  exists lpre, s1, s2, s, lr. repeat split; auto; apply E5; auto.
+Qed.
+
+Lemma C09_single (lam mu psi : R) (rho T : Q) survival tips ints :
+  0 < lam -> 0 < mu -> 0 < psi -> 0 <= Q2R rho <= 1 -> 0 <= Q2R T ->
+  log_prob NumR survival None [mkEp lam mu psi rho 0%Q T] tips ints
+  = bd_log_prob NumR survival lam mu psi rho T tips ints.
+Proof. intros. apply single_epoch_is_constant_l; assumption. Qed.
+
+Lemma C09_example :
+  List.Forall wf_ep [mkEp 3 (5/2) 2 0%Q 0%Q 3%Q; mkEp 2 1 (1/2) (1#5)%Q 3%Q (9#2)%Q;
+                     mkEp 4 (1/2) 1 (1#100)%Q (9#2)%Q 6%Q].
+Proof.
+  repeat constructor; cbn [elam emu epsi erho et0 et1]; unfold Q2R; simpl; lra.
+Qed.
